@@ -257,7 +257,7 @@ def _parse_response(wire, method):
     low = [(k.lower(), v) for k, v in hdrs]
     if any(k == "transfer-encoding" for k, v in low):
         return "chunked"
-    if method == "HEAD" or code == 304:
+    if method == "HEAD" or code in (204, 304) or 100 <= code < 200:
         body = rest
     else:
         cl = [v for k, v in low if k == "content-length"]
